@@ -41,6 +41,9 @@ THEOREMS = [
     "Verif.C16.emTables_mono",
     "Verif.C16.em_link_update",
     "Verif.C16.dwell_counts_conserve",
+    "Verif.C16.generic_model_is_executable_model",
+    "Verif.C16.baum_welch_step_monotone",
+    "Verif.C16.baum_welch_monotone",
 ]
 RULE = (
     "corpus (zero-probability initial states/transitions, the all-impossible model, constant paths, single runs) + "
@@ -109,14 +112,15 @@ ASSUMPTIONS = [
     "precision above 1e12 (variance collapse onto identical observations, frequent in integer traces: the Gaussian is "
     "singular, the likelihood unbounded and its computed value rounding noise; "
     "corpus/C16/em_variance_collapse_identical_counts.json); such runs are counted",
-    "em_monotone is a theorem over the reals about likelihood and posteriors DEFINED as sums over all paths and the re-estimation "
-    "formulas of ClassicHmm.update applied to them; em_link proves that the rational model's forward-backward run computes exactly "
-    "these posteriors for every rational emission table, and em_monotone_tables / emTables_mono is the ascent for the executable "
-    "model with the emission table kept.  What is not formal: a Gaussian emission table is real-valued, the executable model "
-    "takes rational tables (the doubles the harness computes), so the Gaussian M-step is joined to the executable E-step through "
-    "em_link's rational instance only; hypotheses: totals of pi and of the rows of A at most one (exact after one exact update, "
-    "doubles are normalised up to rounding), no re-estimated variance zero (proved for strictly positive pi, A on non-constant "
-    "data: em_monotone_of_pos)",
+    "Baum-Welch ascent (baum_welch_step_monotone / baum_welch_monotone) is a theorem about the ALGORITHM in exact real "
+    "arithmetic: the forward-backward model with Rat replaced by an arbitrary field (Lemmas/C16F, generated text; at F = Q "
+    "proved to be the executable model the harness runs against the code: generic_model_is_executable_model), instantiated "
+    "at the reals with the Gaussian emission table; hypotheses: strictly positive pi and A with totals at most one (exactly "
+    "one after one exact update - re-established by the step), positive variances, at least two samples that are not all "
+    "equal (then no re-estimated variance is zero).  Models with zero entries in pi / A: em_monotone (posteriors as sums over "
+    "all paths, zero entries allowed, side condition that no re-estimated variance of an occupied state is zero) and "
+    "em_monotone_tables / emTables_mono (executable model, emission table kept), joined to the executable model by em_link / "
+    "em_link_update.  Not formal: that the doubles of the code follow the exact reals (compared within 1e-9*scale on every run)",
     "the implementation's log-likelihood sequence itself is still observed on every run (oracle), as before",
     "state labels handed to dwell extraction are integers",
 ]
